@@ -1,0 +1,13 @@
+//go:build verif
+
+// Contracts for the deductive checks under /verif (comment-only; compiled only with -tags verif).
+
+package rpc
+
+// No RPC method can make the node sign unless its name is protected: every exported method of
+// every type registered as a service (stored into API.Service anywhere in the program) whose
+// inferred effect includes the key-store resource `signs` must be a name for which
+// isProtectedMethodName returns true - RegisterName then deletes it unless the transport opted in.
+//@ func isProtectedMethodName
+//@   protects[C18] signs via API.Service
+//@   nopanic[C18]
